@@ -398,3 +398,63 @@ def standard(ctx, pid, cfgs, required, oracles, tv=None, extra=None, assumptions
         "solo network with 4 bookkeepers (3 signatures required); blocks carry signed ONT/ONG transfers and EIP-155 transactions",
         "model height 0 is the last of two bootstrap blocks (funding, contract deployment) on top of the real genesis block",
     ] + (assumptions or []))
+
+
+# ---------------------------------------------------------------------------------------------- bin/check <ID> --replay <file>
+ALL_SHAPES = {"e": 0, "b": 2, "a": 1, "c": 3, "n0": 0, "n1": 1, "n2": 2, "n3": 3, "l0": 0,
+              "l1": [["a1", "t1"]], "l2": [["a2", "t2"], ["a1", "t3"]], "l3": [["a3", "t1"], ["a3", "t3"], ["a2", "t1"]]}
+
+
+def replay_mode(ctx):
+    """re-executes the action sequence (or re-validates the trace prefix) of a violation file on the real ledger and
+    applies the model-free part of the oracles; exit 1 iff the reported behaviour shows again, never writes evidence"""
+    import sys
+    rep = json.load(open(ctx.replay_in))
+    ctx.seed = rep.get("seed", ctx.seed)
+    obj = rep["replay"]
+    try:
+        binary = build(ctx)
+        if not binary:
+            sys.exit(2)
+        if "trace_prefix_file" in obj or "trace" in obj:
+            src = obj.get("trace_prefix_file") or obj["trace"]
+            p = os.path.join(ctx.scratch, "replay-trace.ndjson")
+            with open(src) as f, open(p, "w") as g:
+                for i, line in enumerate(f):
+                    if i < obj["upto"]:
+                        g.write(line)
+            v = ctx.trace_validate("LedgerQuery_Trace", p)
+            print("REPLAY trace prefix of %d events: accepted=%s matched=%d" % (obj["upto"], v["accepted"], v["matched"]))
+            sys.exit(0 if v["accepted"] else 1)
+        if "steps" not in obj:
+            print("REPLAY: this replay object is the input of the section run; re-run bin/check %s" % ctx.pid)
+            sys.exit(2)
+        shapes = {k: ({"ntx": v, "logs": []} if isinstance(v, int) else {"ntx": len(v), "logs": v}) for k, v in ALL_SHAPES.items()}
+        paths = [{"init": {"fresh": obj["fresh"]}, "steps": [{"act": a} for a in obj["steps"]]}]
+        obs = replay(ctx, binary, shapes, paths, "replayfile")
+        if obs is None:
+            sys.exit(2)
+        bad = False
+        for si, s in enumerate(obj["steps"], 1):
+            o = obs.get((0, si))
+            if o is None:
+                break
+            slimo = {k: o[k] for k in ("res", "reason", "err", "cur", "curId", "changed", "diff", "stored", "missed", "pre") if k in o}
+            print("REPLAY step %d %s -> %s" % (si, json.dumps(s)[:300], json.dumps(slimo)[:600]))
+            if s["name"] == "Submit":
+                mutated = mut_class(s["mut"]) not in ("valid", "sroot=bad")
+                if o["res"] == "ok" and mutated:
+                    bad = True
+                if o["res"] != "ok" and (o["changed"] or o.get("stored")):
+                    bad = True
+            if s["name"] == "PreExec" and o["changed"]:
+                bad = True
+            if o.get("missed") or any(v.get("problems") for v in o["views"]):
+                bad = True
+        last = obs.get((0, len(obj["steps"])))
+        if last:
+            print("REPLAY final views: %s" % json.dumps(last["views"])[:1500])
+        print("REPLAY result: %s (model-free oracles; the complete comparison needs the model: bin/check %s)" % ("reproduced" if bad else "not shown by the model-free oracles", ctx.pid))
+        sys.exit(1 if bad else 0)
+    finally:
+        cleanup(ctx)
